@@ -374,7 +374,7 @@ func (g *gen) inputVal(name string, allowed []string, rank int) InputVal {
 	return iv
 }
 
-var stringPool = []string{"", "plain", "with \"quotes\"", "back\\slash", "new\nline", "tab\there", "cr\rlf\n", "ünï ✓ 日本", " sep ", "<html>&amp;", "\x00\x01\x1f\x7f", "\b\f", "\\u0041", "\"\"\"", "#not a comment", "\ufeffbom", "\ufffd", "{a: 1}", "$var", "end\\"}
+var stringPool = []string{"", "plain", "with \"quotes\"", "back\\slash", "new\nline", "tab\there", "cr\rlf\n", "ünï ✓ 日本", " sep ", "<html>&amp;", "\x00\x01\x1f\x7f", "\b\f", "\\u0041", "\"\"\"", "#not a comment", "\ufeffbom", "{a: 1}", "$var", "end\\"}
 
 func (g *gen) str() string {
 	if g.o.AstralStrings && g.r.Chance(1, 3) {
@@ -396,6 +396,10 @@ func (g *gen) str() string {
 			default:
 				c = rune(g.r.Range(0xe000, 0xffff))
 			}
+			if c == 0xfffd {
+				// the lexer's handling of a literal U+FFFD is a finding of C07 (scanner), not of this property
+				c = 0xfffc
+			}
 			b.WriteRune(c)
 		}
 		return b.String()
@@ -412,7 +416,8 @@ var floatPool = []float64{0, 1, -1, 0.5, -2.25, 1e21, 1e-7, 123456.789, 3.0e10, 
 func (g *gen) value(t TRef, depth int, top bool) Val {
 	// a reference to an input object whose fields are not generated yet (itself or a later one):
 	// only null / the empty list are available
-	incomplete := g.d.kindOf(t.N) == "input" && !g.complete[t.N]
+	_, isInput := g.inputRank[t.N]
+	incomplete := isInput && !g.complete[t.N]
 	if !t.nonNull() && (incomplete || g.r.Chance(1, 8)) {
 		return Val{K: "null"}
 	}
@@ -645,7 +650,12 @@ func genSDef(r *hx.Rand, o genOpts) *SDef {
 			// directive arguments: ungated leaves only (directives are not feature-gated)
 			saveInputs := g.inputs
 			g.inputs = nil
-			iv := g.inputVal(g.name("d", j), nil, 1<<30)
+			// (1 in 8: any leaf, so that schema.New's refusal of gated directive argument types is exercised)
+			var allowed []string
+			if r.Chance(1, 8) {
+				allowed = g.feat
+			}
+			iv := g.inputVal(g.name("d", j), allowed, 1<<30)
 			g.inputs = saveInputs
 			dd.Args = append(dd.Args, iv)
 		}
@@ -685,7 +695,7 @@ func genSDef(r *hx.Rand, o genOpts) *SDef {
 				var copied []FieldDef
 				for _, f := range it.Fields {
 					c := FieldDef{Name: f.Name, Desc: g.desc(), Depr: g.depr(), Type: f.Type, Feat: f.Feat}
-					if !f.Type.nonNull() && r.Chance(1, 3) {
+					if !f.Type.nonNull() && len(f.Type.W) < 7 && r.Chance(1, 3) {
 						c.Type = TRef{W: "N" + f.Type.W, N: f.Type.N}
 					}
 					if !subset(g.tfeat[c.Type.N], union(c.Feat, g.tfeat[n])) {
